@@ -64,9 +64,11 @@ extern std::vector<T> Sub_List(const std::vector<T>& v, int i1, unsigned int i2)
 {
 	if(i1 < 0)
 		i1 = 0;
-	if(i2 > v.size())
-		i2 = v.size();
-	std::vector<T> sub(&v[i1], &v[i2] + 1);
+	if(v.empty() || i1 >= (int) v.size() || i2 < (unsigned int) i1)
+		return {};
+	if(i2 > v.size() - 1)
+		i2 = v.size() - 1;
+	std::vector<T> sub(v.begin() + i1, v.begin() + i2 + 1);
 	return sub;
 }
 
